@@ -37,6 +37,7 @@ type hLoc struct {
 	file   string
 	cdp    []string // the distribution-point set every certificate of this location carries (one identifier per location)
 	cdpKind string
+	neverGood bool // the origin of this location never serves a CRL
 	published map[int][]string // forms in which each version was ever published
 }
 
@@ -248,6 +249,12 @@ func runCRLHistory(h *Harness, cfg histCfg) {
 	// locations
 	mk := func(name, url string, iss *CA, base uint32, source string) *hLoc {
 		extra := Pick(tp, 0, 2, 30, 300)
+		if h.Tier == "thorough" {
+			extra = Pick(tp, 0, 2, 30, 300, 2, 30, 3000)
+			if tp.Chance(1, 60) {
+				extra = 60000
+			}
+		}
 		width := Pick(tp, 8, 1, 2, 20, 13)
 		if base > 0 && width < 4 {
 			width = 9
@@ -283,6 +290,14 @@ func runCRLHistory(h *Harness, cfg histCfg) {
 		respA = w.NewResponder("http://ocsp.sim/a", w.A)
 		respB = w.NewResponder("http://ocsp.sim/b", w.B)
 		r.resp = map[*CA]*Responder{w.A: respA, w.B: respB}
+	}
+	// a location whose URL differs from L1's only in the letter case of the path: a different resource (RFC 3986),
+	// here one that never delivers a CRL. It must not be mistaken for L1.
+	if tp.Chance(1, 3) {
+		lc := mk("L1c", "http://crl.sim/A.CRL", w.A, 3, "cdp")
+		lc.cdpKind, lc.cdp = "own", []string{lc.URL}
+		lc.State = Pick(tp, oDown, oHTTP404, oGarbage)
+		lc.neverGood = true
 	}
 	// twin serials: what L1 lists under issuer A is presented under issuer B and vice versa
 	sc["l2src"] = src2
@@ -416,6 +431,11 @@ func runCRLHistory(h *Harness, cfg histCfg) {
 			h.Settle(10*time.Minute + 30*time.Second)
 		case 2: // origin change
 			l := r.locs[tp.Int(len(r.locs))]
+			if l.neverGood {
+				l.State = Pick(tp, oDown, oHTTP404, oGarbage)
+				r.events = append(r.events, fmt.Sprintf("origin(%s):=%s", l.Name, l.State))
+				break
+			}
 			if faulty || tp.Chance(1, 2) {
 				l.State = originStates[tp.Int(len(originStates))]
 			} else {
